@@ -90,8 +90,9 @@ Lemma do_find_in_map_nofn e m k1 k2 r : maps_plain e -> do_find_in_map e m k1 k2
 Proof.
   intros Hm. unfold do_find_in_map. destruct m, k1, k2; try discriminate.
   destruct (lookup s (mappings e)) as [v|] eqn:E1; [|intros H; inv H; reflexivity].
-  destruct v; try discriminate. destruct (lookup s0 d) as [w|] eqn:E2; [|intros H; inv H; reflexivity].
-  destruct w; try discriminate. destruct (lookup s1 d0) as [leaf|] eqn:E3; [|intros H; inv H; reflexivity].
+  destruct v; try discriminate. destruct (lookup_bk s0 d) as [w|] eqn:E2; [|intros H; inv H; reflexivity].
+  destruct w; try discriminate. destruct (lookup_bk s1 d0) as [leaf|] eqn:E3; [|intros H; inv H; reflexivity].
+  destruct (lookup_bk_lookup _ _ _ E2) as (s0' & E2' & _). destruct (lookup_bk_lookup _ _ _ E3) as (s1' & E3' & _).
   intros H. destruct leaf; inv H; try reflexivity; apply nodict_no_fn; eapply Hm; eauto.
 Qed.
 Lemma do_sub_nofn e t c r : do_sub e t c = Ok r -> no_fn_dict r = true.
